@@ -247,21 +247,24 @@ def run(ctx):
         small = []
         for np_, n in (((4, 24),) if quick else ((3, 80), (4, 140))):
             small += L.gen_small(ctx, n, np_)
-        pool = [(L.normalize_project(c['P']), 'tlc') for c in small]
+        pool = [(L.normalize_project(c['P']), L.normalize_config(c['C']), 'tlc') for c in small]
         legal, yield_ = L.seeded_pairs(ctx, 14 if quick else 120)
-        pool += [(P, 'seeded') for P, _ in legal]
+        pool += [(P, Cf, 'seeded') for P, Cf in legal]
         ctx.cover['seeded_candidates_legal'] = yield_
         ctx.rng.shuffle(pool)
         npairs = 0
-        for i, (P, origin) in enumerate(pool):
+        for i, (P, Cfull, origin) in enumerate(pool):
             if (time.time() > budget and npairs >= 40) or npairs >= max_pairs:
                 ctx.cover['stopped_by_budget_after_projects'] = i
                 break
-            C = simple_config(ctx.rng, P, False)
-            if C is None:
-                continue
+            Csimple = simple_config(ctx.rng, P, False)
             iface = i % 3 == 0
             for ops in pipelines(ctx.rng, P, 2 if quick else 3):
+                # without transformations: the full configuration lattice of C21 (disable / block / ignore lists, routine
+                # entries, qualified seeds); with transformations: plain configurations (seeds = roots, drivers)
+                C = Csimple if ops else Cfull
+                if C is None:
+                    continue
                 base = None
                 for classes in permutations(ctx.rng, 3 if quick else 4, npairs):
                     if not any(o['k'] or o['sfx'] or o['msfx'] for o in ops):
